@@ -43,7 +43,7 @@ impl TlsListener {
         const MAX_PREBUFFER_LEN: usize = 16 * 1024;
         const READ_CHUNK_LEN: usize = 1024;
 
-        while prebuffer.len() < MAX_PREBUFFER_LEN {
+        loop {
             match Self::extract_client_random(&prebuffer) {
                 ClientRandomExtraction::Found(cr) => {
                     client_random = Some(cr);
@@ -51,6 +51,11 @@ impl TlsListener {
                 }
                 ClientRandomExtraction::NotFound => break,
                 ClientRandomExtraction::NeedMoreData => {}
+            }
+
+            // the bytes of the last read are examined too before giving up at the limit
+            if prebuffer.len() >= MAX_PREBUFFER_LEN {
+                break;
             }
 
             let remaining = MAX_PREBUFFER_LEN - prebuffer.len();
